@@ -170,13 +170,35 @@ CORPUS = [
 ]
 
 
-def impl_build(wmod, rates):
+def transport(obj, how):
+    """what a Walker goes through in real use besides plain construction: `Tagger.initialize` deep-copies a prepared event handler
+    (number_event_handlers > 1), a dump pickles it with dill and `resume.py` unpickles it, a resumed run may be dumped again.
+    The transported object must be observationally the object that was built (same table, same total rate, same selections)."""
+    if how == "fresh":
+        return obj
+    if how == "deepcopy":
+        import copy
+        return copy.deepcopy(obj)
+    import dill
+    for _ in range(2 if how == "dill-twice" else 1):
+        obj = dill.loads(dill.dumps(obj))
+    return obj
+
+
+TRANSPORTS = ["fresh", "fresh", "deepcopy", "dill", "dill-twice"]
+
+
+def impl_build(wmod, rates, how="fresh"):
     """-> ('ok', walker, items) or ('err:<Type>', None, None)"""
     items = [wmod.WalkerItem(i, r) for i, r in enumerate(rates)]
     try:
         w = wmod.Walker(items)
     except (ZeroDivisionError, AssertionError, IndexError) as e:
         return "err:" + type(e).__name__, None, None
+    try:
+        w = transport(w, how)
+    except Exception as e:
+        return "err:transport:" + how + ":" + type(e).__name__, None, None
     return "ok", w, items
 
 
@@ -251,7 +273,9 @@ def walker_cases(ctx, wmod, draws, cases):
     for ci, (kind, rates) in enumerate(cases):
         req.append("build " + " ".join(f2b(r) for r in rates)); plan.append(("build", ci))
         req.append("sum " + " ".join(f2b(r) for r in rates)); plan.append(("sum", ci))
-        status, w, items = impl_build(wmod, rates)
+        how = rng.choice(TRANSPORTS)
+        status, w, items = impl_build(wmod, rates, how)
+        ctx.count("walker-transport:" + how)
         impls.append((status, w))
         if status != "ok":
             continue
@@ -377,8 +401,10 @@ def walker_blackbox(ctx, wmod, draws):
         kind, rates = gen_rates(rng, False)
         if len(rates) > 80 or not in_quantifier(rates):
             continue
-        status, w, _ = impl_build(wmod, rates)
+        status, w, _ = impl_build(wmod, rates, rng.choice(TRANSPORTS))
         if status != "ok":
+            if status.startswith("err:transport"):
+                ctx.fail("Walker:cannot-be-copied-or-pickled", {"rates": [float(r).hex() for r in rates]}, status)
             continue
         n = len(rates)
         mean = w._mean_rate
@@ -523,6 +549,16 @@ def handler_config(ctx, cfg, draws, seed, nsend):
             except (ZeroDivisionError, AssertionError, KeyError, IndexError) as e:
                 init_status = "err:" + type(e).__name__
         ctx.count("handler-config:" + name + ":" + init_status)
+        if init_status == "ok":
+            # the initialized handler's alias tables as they are after a deep copy of the handler / a dump and a resume
+            how = rng.choice(TRANSPORTS)
+            ctx.count("handler-walkers-transport:" + how)
+            try:
+                handler._upper_bound_walker = [transport(w, how) for w in handler._upper_bound_walker]
+                handler._lower_bound_walker = [transport(w, how) for w in handler._lower_bound_walker]
+            except Exception as e:
+                ctx.fail("CellVetoEventHandler:alias-table-cannot-be-copied-or-pickled:" + how, {"config": list(cfg), "estimator_seed": seed},
+                         f"{how} of an initialized handler's Walker raised {e!r}")
 
         # ---- model session
         grid_toks = [str(dim), str(nl)]
